@@ -573,5 +573,32 @@ theorem foldElems_iff (set : SortedSet) (hwf : set.WF) (es : List Bytes) (st : C
               rw [List.drop_drop]; congr 1; omega
             rw [this]
 
+/-- Elements without whitespace are their own names. -/
+theorem elem_plain (e : Bytes) (h : ∀ b ∈ e, isOWS b = false) : Spec.elem e = some e := by
+  have hD : ∀ s : Bytes, (∀ b ∈ s, isOWS b = false) → Spec.dropOneOWS s = s := by
+    intro s hs
+    cases s with
+    | nil => rfl
+    | cons b t => simp [Spec.dropOneOWS, hs b List.mem_cons_self]
+  unfold Spec.elem
+  have h1 : Spec.dropOneOWS e.reverse = e.reverse := hD _ (fun b hb => h b (List.mem_reverse.mp hb))
+  simp only [h1, List.reverse_reverse, hD e h]
+  have hh : e.head?.any isOWS = false := by
+    cases e with
+    | nil => rfl
+    | cons b t => simp [h b List.mem_cons_self]
+  have hl : e.getLast?.any isOWS = false := by
+    cases hg : e.getLast? with
+    | none => rfl
+    | some b => simp [h b (List.mem_of_getLast? hg)]
+  simp [hh, hl]
+
+theorem names_plain (es : List Bytes) (h : ∀ e ∈ es, ∀ b ∈ e, isOWS b = false) : Spec.names es = some es := by
+  induction es with
+  | nil => rfl
+  | cons e es ih =>
+    simp only [Spec.names, elem_plain e (h e List.mem_cons_self), ih (fun e' he' => h e' (List.mem_cons_of_mem _ he'))]
+
+
 end ACRH
 end Cors
